@@ -166,9 +166,19 @@ func ColumnToIndex(col string) int {
 			return -1
 		}
 		result = result*26 + int(c-'A') + 1
+		// The letters come from the file (<c r="...">). Fourteen of them no longer
+		// fit 64 bits: the number wrapped around, a 70-letter column came out as
+		// MaxInt64, and the grid check that adds one to it was passed with a
+		// negative size ("makeslice: len out of range"). No sheet has 2^40 columns.
+		if result > maxColumnNumber {
+			return -1
+		}
 	}
 	return result - 1
 }
+
+// maxColumnNumber is the largest column number ColumnToIndex converts.
+const maxColumnNumber = 1 << 40
 
 // IndexToColumn converts a 0-indexed column number to column letter(s).
 // 0=A, 1=B, ..., 25=Z, 26=AA, 27=AB, etc.
